@@ -183,9 +183,14 @@ def run_est(kind, df, meta, gen, stab, rx, fS=None, fA=None, fQ=None):
                 dfc = df.copy()
                 e = IPSW(dfc, exposure='A', outcome='Y', selection='S', generalize=gen)
                 ec.scramble(dfc)          # the caller's own frame changes after construction: the estimator must not care
-                e.sampling_model(fS, stabilized=stab, print_results=False, **bkw)
-                if rx:
+                # the two models may be specified in either order (fit() only needs both): treatment model first on alternate runs
+                if rx and UNREACHED[0] % 2 == 0:
                     e.treatment_model(fA, stabilized=stab, print_results=False, **bkw)
+                    e.sampling_model(fS, stabilized=stab, print_results=False, **bkw)
+                else:
+                    e.sampling_model(fS, stabilized=stab, print_results=False, **bkw)
+                    if rx:
+                        e.treatment_model(fA, stabilized=stab, print_results=False, **bkw)
                 e.fit()
                 REFIT[0] += 1
                 if REFIT[0] % 2 == 0:
@@ -224,9 +229,13 @@ def run_est(kind, df, meta, gen, stab, rx, fS=None, fA=None, fQ=None):
                 dfc = df.copy()
                 e = AIPSW(dfc, exposure='A', outcome='Y', selection='S', generalize=gen)
                 ec.scramble(dfc)
-                e.sampling_model(fS, stabilized=stab, print_results=False)
-                if rx:
+                if rx and UNREACHED[0] % 2 == 0:
                     e.treatment_model(fA, stabilized=stab, print_results=False, **bkw)
+                    e.sampling_model(fS, stabilized=stab, print_results=False)
+                else:
+                    e.sampling_model(fS, stabilized=stab, print_results=False)
+                    if rx:
+                        e.treatment_model(fA, stabilized=stab, print_results=False, **bkw)
                 e.outcome_model(fQ, outcome_type=otype, print_results=False)
                 e.fit()
                 REFIT[0] += 1
